@@ -229,6 +229,11 @@ def _shard(sh, ctx):
             other = 'R' if inserter == 'L' else 'L'
             for pname in ('C1', 'M3', 'C3'):
                 newcell = pool[pname]
+                if any(c['source'] == newcell['source'] for c in base['cells']):
+                    # a new cell indistinguishable from a base cell makes "who touched which cell" ambiguous (the same pair of notebooks is
+                    # explained by a move as well); the by-construction expectation does not apply
+                    ctx.count('skipped:inserted cell equals a base cell')
+                    continue
                 # the other side may act on cells not adjacent to the gap; the inserter may act anywhere
                 choices = []
                 for i in range(n):
